@@ -490,6 +490,9 @@ fn anchor_out(o: Option<(Option<BlockHeight>, usize)>, st: &mut Stats, what: &st
 fn main() {
     let a = args();
     quiet_panics();
+    // overflow-check profile of this build (debug: on, release: off); the model takes it as a flag
+    let oc = catch(|| std::hint::black_box(u32::MAX) + std::hint::black_box(1u32)).is_none();
+    stat(format!("{{\"overflow_checks\":{}}}", oc));
     let mut r = Rng::new(a.seed, 17);
     let mut st = Stats::default();
     let search = a.search;
@@ -659,18 +662,54 @@ fn main() {
             0 | 1 => {
                 let (nu, funding) = if r.bool() { (viable(&mut r), viable(&mut r)) } else { (near(&mut r, mr), near(&mut r, mr)) };
                 let o = with_rng(&ws, |g| sch::draw_anchor_boundary(iv(i), bh(nu), bh(funding), bh(tip), g));
-                case(format!("AnchorDraw {} {} {} {} {} {}", i, nu, funding, tip, zl(&ws), anchor_out(o, &mut st, "anchor")));
+                case(format!("AnchorDraw {} {} {} {} {} {} {}", boolc(oc), i, nu, funding, tip, zl(&ws), anchor_out(o, &mut st, "anchor")));
             }
             2 => {
                 let prior = if r.bool() { viable(&mut r) } else { near(&mut r, mr) };
                 let o = with_rng(&ws, |g| sch::redraw_anchor_boundary(iv(i), bh(prior), bh(tip), g));
-                case(format!("AnchorRedraw {} {} {} {} {}", i, prior, tip, zl(&ws), anchor_out(o, &mut st, "redraw")));
+                case(format!("AnchorRedraw {} {} {} {} {} {}", boolc(oc), i, prior, tip, zl(&ws), anchor_out(o, &mut st, "redraw")));
             }
             _ => {
                 let nu = near(&mut r, mr);
                 let funding = near(&mut r, mr);
                 let e = sch::earliest_broadcast_height(iv(i), bh(nu), bh(funding));
                 case(format!("Earliest {} {} {} {}", i, nu, funding, zu(u(e))));
+            }
+        }
+    }
+
+    // --- the viability threshold at saturation: earliest_broadcast_height near u32::MAX and the draw at the top tip ---
+    for &i in &[1u32, 2, 3, 5, 144, 145, 65_535, 1 << 16, 1 << 31, u32::MAX] {
+        for &nu in &[0u32, u32::MAX - 3 * 144, u32::MAX - 289, u32::MAX - 288, u32::MAX - 145, u32::MAX - 144, u32::MAX - 2, u32::MAX - 1, u32::MAX] {
+            for &funding in &[0u32, u32::MAX - 300, u32::MAX - 1, u32::MAX] {
+                let e = sch::earliest_broadcast_height(iv(i), bh(nu), bh(funding));
+                case(format!("Earliest {} {} {} {}", i, nu, funding, zu(u(e))));
+                for &tip in &[u32::MAX, u32::MAX - 1, u32::from(e), u32::from(e).saturating_sub(1)] {
+                    let ws = [1u64, 3];
+                    let o = with_rng(&ws, |g| sch::draw_anchor_boundary(iv(i), bh(nu), bh(funding), bh(tip), g));
+                    case(format!("AnchorDraw {} {} {} {} {} {} {}", boolc(oc), i, nu, funding, tip, zl(&ws), anchor_out(o, &mut st, "anchor")));
+                }
+            }
+        }
+    }
+
+    // --- the canonical-denomination test under arbitrary (overridden) bounds ---
+    {
+        let canon = |lo: u64, hi: u64, v: u64| -> bool {
+            let c = Consts { prep: 16, min: Zatoshis::from_u64(lo).expect("zat"), max: Zatoshis::from_u64(hi).expect("zat") };
+            c.is_canonical_denomination(Zatoshis::from_u64(v).expect("zat"))
+        };
+        let max_money = 21_000_000 * COIN;
+        let los = [0u64, 1, 2, 10, 1_000_000, COIN];
+        let his = [0u64, 1, 5, 100 * COIN, 10_000 * COIN, max_money];
+        for &lo in &los {
+            for &hi in &his {
+                for k in 0..40 {
+                    let v = if k < 12 { [0u64, 1, 2, 3, 5, 10, 20, 50, 1_000_000, COIN, 10_000 * COIN, max_money][k] } else { rand_value(&mut r) };
+                    if lo == 0 && v == 0 { continue; }        // probed below with a timeout
+                    let o = catch(|| canon(lo, hi, v));
+                    case(format!("CanonDenom {} {} {} {}", lo, hi, v, opt(o.map(boolc))));
+                }
             }
         }
     }
@@ -687,7 +726,23 @@ fn main() {
         gen_wakeups(&mut r, &mut st);
     }
 
+    // --- value 0 under a zero lower bound: run in a thread, give up after the timeout ---
+    for &hi in &[0u64, 100 * COIN] {
+        let (tx, rx) = std::sync::mpsc::channel();
+        std::thread::spawn(move || {
+            let c = Consts { prep: 16, min: Zatoshis::ZERO, max: Zatoshis::from_u64(hi).expect("zat") };
+            let b = c.is_canonical_denomination(Zatoshis::ZERO);
+            let _ = tx.send(b);
+        });
+        let o = rx.recv_timeout(std::time::Duration::from_millis(600)).ok();
+        st.out(if o.is_some() { "canon-zero:answered" } else { "canon-zero:no-answer" });
+        case(format!("CanonDenom 0 {} 0 {}", hi, opt(o.map(boolc))));
+    }
+
     let sm = |m: &std::collections::BTreeMap<String, u64>| m.iter().map(|(k, v)| format!("\"{}\":{}", k, v)).collect::<Vec<_>>().join(",");
     stat(format!("{{\"streams\":{{{}}}}}", st.streams.iter().map(|(k, v)| format!("\"{}\":{}", k, v)).collect::<Vec<_>>().join(",")));
     stat(format!("{{\"outcomes\":{{{}}}}}", sm(&st.outcomes)));
+    use std::io::Write as _;
+    std::io::stdout().flush().ok();
+    std::process::exit(0);
 }
